@@ -328,6 +328,8 @@ def handle (toks : List String) : String :=
       | some toks => zcurveOut dim order parts n toks
   | some "cx" =>
     "skip context op: implementation-vs-implementation comparison (same calls on the global pool / inside a rayon task / concurrently / with other input types); the calls themselves are compared with the model on the hilg/zcg lines that follow"
+  | some "rs" =>
+    "skip reuse-sequence op: one algorithm value used on several generated point sets of different sizes, each call compared with a fresh value's result (implementation-vs-implementation) and judged by the oracle; the later calls are compared with the model on the zcg/hilg lines that follow"
   | some "seq" =>
     "skip sequence op: the listed ops run first-thing in a fresh child process and are compared with this process; each op is compared with the model on its own line"
   | _ => "bad-op"
